@@ -242,6 +242,7 @@ class Engine:
         self.stats = {"paths": 0, "feas_checks": 0}
         self.ignored_calls: set = set()  # ids of callables whose calls (and argument evaluation) are skipped
         self.const_describers: list = []  # fn(eng, st, obj, term): facts about concrete objects that get lifted
+        self.closed_world_classes = False  # pack option: attribute access on an object of unknown class considers registered classes only
         from . import models
 
         models.install(self)
@@ -823,6 +824,11 @@ class Engine:
                 continue
             cid = mdl.eval(V.cls_of(V.Val.a(v.t)), model_completion=True).as_long()
             if cid not in self.class_by_id:
+                if self.closed_world_classes and not getattr(sol, "_closed", False):
+                    # objects known only through isinstance tests: consider the registered classes only
+                    sol.add(z3.Or(z3.Not(V.is_ref(v.t)), *[V.cls_of(V.Val.a(v.t)) == c_ for c_ in self.class_by_id]))
+                    sol._closed = True
+                    continue
                 raise Unsupported(f"class of symbolic object {v} is unconstrained")
             cond = z3.And(V.is_ref(v.t), V.cls_of(V.Val.a(v.t)) == cid)
             cases.append((cond, self.class_by_id[cid]))
@@ -849,6 +855,19 @@ class Engine:
                 yield st, pycls(*args, **kwargs)
             except Exception as e:  # noqa: BLE001
                 yield st, Raise(Exc(type(e), e.args, note="native"))
+            return
+        if not self._is_repo_class(pycls) and isinstance(pycls, type) and issubclass(pycls, ast.AST):
+            # ast node constructors are plain records: positional arguments follow _fields, keywords by name
+            obj = self.alloc(st, pycls)
+            flds = list(pycls._fields)
+            if len(args) > len(flds):
+                yield st, Raise(Exc(TypeError, (f"{pycls.__name__} constructor takes at most {len(flds)} positional arguments",)))
+                return
+            given = dict(zip(flds, args))
+            given.update(kwargs)
+            for n, v in given.items():
+                self.store_field(st, obj.t, n, self.lift(v, st), None)
+            yield st, obj
             return
         if not self._is_repo_class(pycls):
             raise Unsupported(f"constructor {pycls!r} with symbolic arguments has no model")
